@@ -265,6 +265,10 @@ func handleUpdateStatement(query, pattern sqlparser.Statement) bool {
 	}
 	match = areEqualWhere(queryUpdateNode.Where, patternUpdateNode.Where)
 	if !match {
+		// Check %%WHERE%% pattern
+		if isWherePattern(patternUpdateNode.Where) {
+			return true
+		}
 		return false
 	}
 	match = areEqualOrderBy(queryUpdateNode.OrderBy, patternUpdateNode.OrderBy)
@@ -310,6 +314,10 @@ func handleDeleteStatement(query, pattern sqlparser.Statement) bool {
 	}
 	match = areEqualWhere(queryDeleteNode.Where, patternDeleteNode.Where)
 	if !match {
+		// Check %%WHERE%% pattern
+		if isWherePattern(patternDeleteNode.Where) {
+			return true
+		}
 		return false
 	}
 	match = areEqualOrderBy(queryDeleteNode.OrderBy, patternDeleteNode.OrderBy)
@@ -1383,6 +1391,10 @@ func isSubqueryPattern(pattern *sqlparser.Subquery) bool {
 	return reflect.DeepEqual(pattern.Select, SubqueryPatternStatement.(*sqlparser.Select))
 }
 func isWherePattern(pattern *sqlparser.Where) bool {
+	// a pattern without WHERE clause is not the %%WHERE%% pattern
+	if pattern == nil {
+		return false
+	}
 	if !strings.EqualFold(pattern.Type, WherePatternStatement.(*sqlparser.Select).Where.Type) {
 		return false
 	}
